@@ -57,6 +57,7 @@ impl Rng {
     }
     pub fn below(&mut self, n: usize) -> usize { (self.next() % n as u64) as usize }
     pub fn weight(&mut self) -> i32 { self.below(201) as i32 - 100 }
+    pub fn small_weight(&mut self) -> i32 { self.below(3) as i32 - 1 }
 }
 
 pub const ALPHABET: &[char] = &['a', 'b', '1', 'あ', 'ア', '漢', '\u{2000b}', 'é', ' '];
@@ -83,8 +84,9 @@ pub fn gen_text(r: &mut Rng, max_len: usize) -> String {
 }
 
 pub fn gen_model(r: &mut Rng, with_tags: bool) -> ModelData {
-    let cw = 1 + r.below(5) as u8; // 1..=5: weight vectors up to 10 entries (both layouts)
-    let tw = 1 + r.below(4) as u8; // 1..=4: cached (<=3) and uncached type scorer
+    // windows: mostly small, sometimes large (>= 8: entries longer than the fixed length AND longer than the 7-slot padding)
+    let cw = if r.below(4) == 0 { 6 + r.below(6) as u8 } else { 1 + r.below(5) as u8 };
+    let tw = if r.below(5) == 0 { 5 + r.below(6) as u8 } else { 1 + r.below(4) as u8 }; // cached (<=3) and uncached type scorer
     // character n-grams: random + suffixes of earlier ones (suffix chains must be merged by the predictor)
     let mut cngrams: Vec<Vec<char>> = vec![];
     let n_c = 1 + r.below(6);
@@ -164,6 +166,7 @@ pub fn gen_model(r: &mut Rng, with_tags: bool) -> ModelData {
                 .map(|c| (0..r.below(4)).map(|k| format!("t{c}{k}")).collect())
                 .collect();
             let n_scores: usize = tags.iter().filter(|c| c.len() >= 2).map(|c| c.len()).sum();
+            let ties = r.below(2) == 0; // small weights => exact ties between candidates
             let mut cg: Vec<TagNgramData<String>> = vec![];
             for _ in 0..r.below(4) {
                 let g: String = { let l = 1 + r.below(2); rand_chars(r, l) }.into_iter().collect();
@@ -171,7 +174,7 @@ pub fn gen_model(r: &mut Rng, with_tags: bool) -> ModelData {
                 let mut ws: Vec<TagWeight> = vec![];
                 for rel in 0..=cw {
                     if r.below(2) == 0 {
-                        ws.push(TagWeight { rel_position: rel, weights: (0..n_scores).map(|_| r.weight()).collect() });
+                        ws.push(TagWeight { rel_position: rel, weights: (0..n_scores).map(|_| if ties { r.small_weight() } else { r.weight() }).collect() });
                     }
                 }
                 cg.push(TagNgramData { ngram: g, weights: ws });
@@ -183,7 +186,7 @@ pub fn gen_model(r: &mut Rng, with_tags: bool) -> ModelData {
                 let mut ws: Vec<TagWeight> = vec![];
                 for rel in 0..=tw {
                     if r.below(2) == 0 {
-                        ws.push(TagWeight { rel_position: rel, weights: (0..n_scores).map(|_| r.weight()).collect() });
+                        ws.push(TagWeight { rel_position: rel, weights: (0..n_scores).map(|_| if ties { r.small_weight() } else { r.weight() }).collect() });
                     }
                 }
                 tg.push(TagNgramData { ngram: g, weights: ws });
@@ -193,7 +196,7 @@ pub fn gen_model(r: &mut Rng, with_tags: bool) -> ModelData {
                 tags,
                 char_ngram_model: TagNgramModel(cg),
                 type_ngram_model: TagNgramModel(tg),
-                bias: (0..n_scores).map(|_| r.weight()).collect(),
+                bias: (0..n_scores).map(|_| if ties { r.small_weight() } else { r.weight() }).collect(),
             });
         }
     }
